@@ -19,7 +19,9 @@ print('| id | change | first run | after strengthening |')
 print('|---|---|---|---|')
 print('\n'.join(rows))
 first = [res.get(os.path.basename(os.path.dirname(m)), {}).get('first_run') or '' for m in glob.glob('/verif/seeded/C*-*/meta.json')]
-caught = sum(1 for f in first if f.lower().startswith('caught'))
+res_items = [res.get(os.path.basename(os.path.dirname(m)), {}) for m in glob.glob('/verif/seeded/C*-*/meta.json')]
+caught = sum(1 for x in res_items if (x.get('first_run') or '').lower().startswith('caught'))
+gaps = sum(1 for x in res_items if (x.get('strengthened') or '').lower().startswith('not strengthened'))
 print()
-print('%d seeded changes; %d reported on the first run, %d not (missed, or the check itself failed) and reported after strengthening.'
-      % (len(first), caught, len(first) - caught))
+print('%d seeded changes; %d reported by the property\'s check on the first run, %d not (missed, or the check itself failed) and reported '
+      'after strengthening, %d recorded as open gaps.' % (len(res_items), caught, len(res_items) - caught - gaps, gaps))
